@@ -112,21 +112,24 @@ class SQLExecutor(object):
 
         return self
 
-    def __exit__(self, *args, **kwargs):
+    def __exit__(self, exc_type=None, exc_value=None, traceback=None):
         """Exit the context manager.
 
-        This will commit any transaction that may be in progress, close the
-        database cursor, and re-enable constraint checking if it were
-        previously disabled.
+        This will commit any transaction that may be in progress (or roll it
+        back, if leaving due to an exception), close the database cursor, and
+        re-enable constraint checking if it were previously disabled.
 
         Args:
-            *args (tuple, unused):
-                Unused positional arguments.
+            exc_type (type, optional):
+                The type of the exception being raised, if any.
 
-            **kwargs (dict, unused):
-                Unused keyword arguments.
+            exc_value (Exception, optional):
+                The exception being raised, if any.
+
+            traceback (traceback, optional):
+                The traceback for the exception, if any.
         """
-        self.finish_transaction()
+        self.finish_transaction(exc_type, exc_value, traceback)
 
         self._cursor.close()
         self._cursor = None
@@ -142,7 +145,7 @@ class SQLExecutor(object):
         """
         self.finish_transaction()
 
-        transaction = atomic()
+        transaction = atomic(using=self._database)
         transaction.__enter__()
         self._latest_transaction = transaction
 
@@ -154,13 +157,28 @@ class SQLExecutor(object):
         if not self._latest_transaction:
             self.new_transaction()
 
-    def finish_transaction(self):
-        """Finish and commit a transaction."""
+    def finish_transaction(self, exc_type=None, exc_value=None,
+                           traceback=None):
+        """Finish a transaction.
+
+        The transaction will be committed, unless exception information is
+        provided, in which case it will be rolled back.
+
+        Args:
+            exc_type (type, optional):
+                The type of the exception being raised, if any.
+
+            exc_value (Exception, optional):
+                The exception being raised, if any.
+
+            traceback (traceback, optional):
+                The traceback for the exception, if any.
+        """
         transaction = self._latest_transaction
 
         if transaction:
-            transaction.__exit__(None, None, None)
             self._latest_transaction = None
+            transaction.__exit__(exc_type, exc_value, traceback)
 
     def run_sql(self, sql, capture=False, execute=False):
         """Run (execute and/or capture) a list of SQL statements.
@@ -204,7 +222,7 @@ class SQLExecutor(object):
                 # a transaction.
                 batches = list(batches)
 
-                for batch, use_transaction in batches:
+                for batch, use_transaction, new_transaction in batches:
                     if not use_transaction:
                         logging.error(
                             'Unable to execute the following SQL inside of a '
@@ -216,12 +234,18 @@ class SQLExecutor(object):
                             'transaction. See the logging for more '
                             'information.')
 
-            for i, (batch, use_transaction) in enumerate(batches):
+            for i, (batch, use_transaction,
+                    new_transaction) in enumerate(batches):
                 if execute:
-                    if use_transaction:
-                        self.new_transaction()
-                    else:
+                    if not use_transaction:
                         self.finish_transaction()
+                    elif i == 0 and not new_transaction:
+                        # Continue any transaction already opened by this
+                        # executor, so that everything run through it is
+                        # committed (or rolled back) together.
+                        self.ensure_transaction()
+                    else:
+                        self.new_transaction()
 
                 if capture and i > 0:
                     if use_transaction:
@@ -345,20 +369,24 @@ class SQLExecutor(object):
 
             1. The list of SQL statements.
             2. Whether to execute these statements in a transaction.
+            3. Whether a brand new transaction was explicitly requested for
+               these statements.
         """
         batch = None
         last_use_transaction = None
+        last_new_transaction = False
 
         for (statement, params, use_transaction,
              new_transaction) in prepared_sql:
             if new_transaction or use_transaction is not last_use_transaction:
                 if batch:
-                    yield batch, last_use_transaction
+                    yield batch, last_use_transaction, last_new_transaction
 
                 batch = []
                 last_use_transaction = use_transaction
+                last_new_transaction = new_transaction
 
             batch.append((statement, params))
 
         if batch:
-            yield batch, last_use_transaction
+            yield batch, last_use_transaction, last_new_transaction
